@@ -51,12 +51,20 @@ use std::time::{Duration, Instant};
 #[derive(Clone)]
 pub struct Emit {
     pub seen: Rc<RefCell<Vec<Vec<String>>>>,
+    /// C13: when present, `emit __halt__` raises the embedder's halt flag (and notes that it did)
+    pub raise: Option<Rc<std::cell::Cell<bool>>>,
 }
 impl Command for Emit {
     fn name(&self) -> String { "emit".to_string() }
     fn clone_and_box(&self) -> Box<dyn Command> { Box::new(self.clone()) }
     fn run(&self, ctx: CommandInvocationContext) -> CommandResult {
         self.seen.borrow_mut().push(ctx.arguments.clone());
+        if let Some(r) = &self.raise {
+            if ctx.arguments.len() == 1 && ctx.arguments[0] == "__halt__" {
+                ctx.env.halt.store(true, Ordering::SeqCst);
+                r.set(true);
+            }
+        }
         CommandResult::Continue(None)
     }
 }
@@ -108,7 +116,10 @@ pub fn guarded_halt(ms: u64) -> Arc<AtomicBool> {
             let mut w = WATCH.lock().unwrap();
             w.retain(|(deadline, flag)| {
                 if Arc::strong_count(flag) == 1 { return false; }
-                if *deadline <= now { flag.store(true, Ordering::SeqCst); false } else { true }
+                // past the deadline the flag is raised again on every tick for as long as the run
+                // holds it (a changed implementation that resets the flag must still come back)
+                if *deadline <= now { flag.store(true, Ordering::SeqCst); }
+                true
             });
         });
     }
@@ -122,9 +133,19 @@ pub fn canon_val(v: &str) -> String {
 
 /// run a script with the SDK + emit/inc/lt; outcome in the canonical form of lean/DuckModel/Drv/C04.lean
 pub fn run_structured(text: &str, vars: &[(String, String)]) -> String {
+    run_structured_with(text, vars, false)
+}
+
+/// the same, with `emit __halt__` raising the embedder's halt flag from inside the script (C13)
+pub fn run_structured_halting(text: &str, vars: &[(String, String)]) -> String {
+    run_structured_with(text, vars, true)
+}
+
+fn run_structured_with(text: &str, vars: &[(String, String)], halting: bool) -> String {
     let seen = Rc::new(RefCell::new(vec![]));
+    let raised = Rc::new(std::cell::Cell::new(false));
     let mut ctx = sdk_context();
-    ctx.commands.set(Box::new(Emit { seen: seen.clone() })).unwrap();
+    ctx.commands.set(Box::new(Emit { seen: seen.clone(), raise: if halting { Some(raised.clone()) } else { None } })).unwrap();
     ctx.commands.set(Box::new(Inc)).unwrap();
     ctx.commands.set(Box::new(Lt)).unwrap();
     for (k, v) in vars {
@@ -132,7 +153,7 @@ pub fn run_structured(text: &str, vars: &[(String, String)]) -> String {
     }
     let halt = guarded_halt(1500);
     let res = duckscript::runner::run_script(text, ctx, Some(quiet_env(Some(halt.clone()))));
-    if halt.load(Ordering::SeqCst) {
+    if halt.load(Ordering::SeqCst) && !raised.get() {
         return "timeout".to_string();
     }
     match res {
